@@ -26,7 +26,7 @@ RULE = ("formulas with nested / shadowing binders over finite sorts and shared s
         "distinct by (blueprint, map) hash")
 
 FCFG = Cfg(max_depth=4, theories={"bool", "int", "real", "bv", "arr", "uf", "sort", "quant", "str"},
-           bv_widths=[1, 2, 4], quant_types=[BOOL, BV(1), BV(2), SORT("S1")], share=30)
+           bv_widths=[1, 2, 4], quant_types=[BOOL, BV(1), BV(2), SORT("S1")], share=30, pow=True)
 RCFG = Cfg(max_depth=2, theories={"bool", "int", "real", "bv", "arr", "sort", "str"}, bv_widths=[1, 2, 4],
            sym_offset=3, share=10)
 RCFG_CAPTURE = Cfg(max_depth=2, theories={"bool", "int", "real", "bv", "arr", "sort", "str"}, bv_widths=[1, 2, 4], share=10)
